@@ -38,16 +38,25 @@ package layer2
 
 // ---- announce / withdraw: the service -> advertisements map is what the responders read ----
 // AnnInv: the maps exist and the advertisement lists of different services do not share a backing array.
-//@ pred AnnInv(a *Announce) := a != nil && a.ips != nil && a.ipRefcnt != nil && a.ndps != nil && (forall i int :: i in a.ndps ==> a.ndps[i] != nil) &&
+// ValidIP: a 4- or 16-byte address.
+//@ pred ValidIP(ip net.IP) := len(ip) == 4 || len(ip) == 16
+// HasStr: service s announces the address printed as x.
+//@ pred HasStr(a *Announce, s string, x string) := exists k int :: Entry(a, s, k) && net.ipstr(a.ips[s][k].ip) == x
+//@ pred AnnInv(a *Announce) := a != nil && a.ips != nil && a.ipRefcnt != nil && a.ndps != nil &&
+//@     (forall i int :: i in a.ndps ==> a.ndps[i] != nil && a.ndps[i].solicitedNodeGroups != a.ipRefcnt) &&
+//@     (forall s string, k int :: Entry(a, s, k) ==> ValidIP(a.ips[s][k].ip)) &&
+//@     (forall s string, j int, k int :: Entry(a, s, j) && Entry(a, s, k) && j != k ==> net.ipstr(a.ips[s][j].ip) != net.ipstr(a.ips[s][k].ip)) &&
 //@     (forall s1 string, s2 string :: { mapval(a.ips, s1), mapval(a.ips, s2) } s1 != s2 && (s1 in a.ips) && (s2 in a.ips) && a.ips[s1] != nil ==> !sameArray(a.ips[s1], a.ips[s2]))
 
 // NDP group bookkeeping of a responder: touches only the responder's own map (not verified here).
 //@ func (*ndpResponder).Watch
 //@   trusted
-//@   modifies map[string]int64
+//@   requires n != nil
+//@   modifies map(n.solicitedNodeGroups)
 //@ func (*ndpResponder).Unwatch
 //@   trusted
-//@   modifies map[string]int64
+//@   requires n != nil
+//@   modifies map(n.solicitedNodeGroups)
 // The spam channel may block: it must not be written while the mutex is held (comment on Announce.spamCh).
 //@ func (*Announce).doSpam
 //@   lockonly
@@ -55,7 +64,8 @@ package layer2
 //@   modifies nothing
 
 //@ func (*Announce).SetBalancer
-//@   requires AnnInv(a) && lockstate(a.RWMutex) == 0
+//@   requires AnnInv(a) && lockstate(a.RWMutex) == 0 && ValidIP(adv.ip)
+//@   ensures [refcnt] forall x string :: a.ipRefcnt[x] == old(a.ipRefcnt[x]) + ite(x == net.ipstr(adv.ip) && !old(HasStr(a, name, x)), 1, 0)
 //@   ensures [inv] AnnInv(a) && lockstate(a.RWMutex) == 0
 //@   ensures [has] exists k int :: Entry(a, name, k) && a.ips[name][k] == adv
 //@   ensures [kept] forall k int :: old(Entry(a, name, k)) ==> Entry(a, name, k) &&
@@ -64,6 +74,8 @@ package layer2
 //@       && (forall j int :: old(Entry(a, name, j)) ==> !old(a.ips[name][j].ip.Equal(adv.ip))))
 //@   ensures [others] forall s string, k int :: s != name ==> (s in a.ips) == old(s in a.ips) && Entry(a, s, k) == old(Entry(a, s, k)) && (Entry(a, s, k) ==> a.ips[s][k] == old(a.ips[s][k]))
 //@   modifies $held, map(a.ips), map(a.ipRefcnt), elems(a.ips[name]), fresh []IPAdvertisement, map[string]int64, fresh []interface{}
+//@   loop 2 invariant forall x string :: a.ipRefcnt[x] == old(a.ipRefcnt[x]) + ite(x == net.ipstr(adv.ip), 1, 0)
+//@   assert after Equal#1: [found] ret ==> old(HasStr(a, name, net.ipstr(adv.ip)))
 //@   loop 1 invariant lockstate(a.RWMutex) == 2 && AnnInv(a) && (name in a.ips) && sameSlice(ipAdvertisements, a.ips[name])
 //@   loop 1 invariant forall j int :: 0 <= j && j < iter ==> !a.ips[name][j].ip.Equal(adv.ip)
 //@   loop 1 invariant forall s string, k int :: (s in a.ips) == old(s in a.ips) && Entry(a, s, k) == old(Entry(a, s, k)) && (Entry(a, s, k) ==> a.ips[s][k] == old(a.ips[s][k]))
@@ -76,9 +88,16 @@ package layer2
 //@   ensures [inv] AnnInv(a) && lockstate(a.RWMutex) == 0
 //@   ensures [gone] !(name in a.ips)
 //@   ensures [exact] forall ip net.IP, intf string :: Answers(a, ip, intf) == old(AnswersExcept(a, ip, intf, name))
+//@   ensures [refcnt] forall x string :: a.ipRefcnt[x] == old(a.ipRefcnt[x]) - ite(old(HasStr(a, name, x)), 1, 0)
 //@   ensures [others] forall s string, k int :: s != name ==> (s in a.ips) == old(s in a.ips) && Entry(a, s, k) == old(Entry(a, s, k)) && (Entry(a, s, k) ==> a.ips[s][k] == old(a.ips[s][k]))
 //@   modifies $held, map(a.ips), map(a.ipRefcnt), map[string]int64, fresh []interface{}
+//@   loop 2 invariant 0 <= idx(1) && idx(1) < len(advs) && AnnInv(a) && !(name in a.ips)
+//@   loop 2 invariant old(name in a.ips) && sameSlice(advs, old(a.ips[name])) && (forall k int :: 0 <= k && k < len(advs) ==> advs[k] == old(a.ips[name][k]))
+//@   loop 2 invariant forall x string :: a.ipRefcnt[x] == old(a.ipRefcnt[x]) - ite((exists k int :: 0 <= k && k <= idx(1) && net.ipstr(advs[k].ip) == x), 1, 0)
+//@   loop 2 invariant forall s string, k int :: s != name ==> (s in a.ips) == old(s in a.ips) && Entry(a, s, k) == old(Entry(a, s, k)) && (Entry(a, s, k) ==> a.ips[s][k] == old(a.ips[s][k]))
 //@   loop 1 invariant lockstate(a.RWMutex) == 2 && AnnInv(a) && !(name in a.ips)
+//@   loop 1 invariant old(name in a.ips) && sameSlice(advs, old(a.ips[name])) && (forall k int :: 0 <= k && k < len(advs) ==> advs[k] == old(a.ips[name][k]))
+//@   loop 1 invariant forall x string :: a.ipRefcnt[x] == old(a.ipRefcnt[x]) - ite((exists k int :: 0 <= k && k < iter && net.ipstr(advs[k].ip) == x), 1, 0)
 //@   loop 1 invariant forall s string, k int :: s != name ==> (s in a.ips) == old(s in a.ips) && Entry(a, s, k) == old(Entry(a, s, k)) && (Entry(a, s, k) ==> a.ips[s][k] == old(a.ips[s][k]))
 //@   loop 2 invariant lockstate(a.RWMutex) == 2
 
